@@ -84,7 +84,7 @@ REQUIRED_CLAUSES = ["args-unchanged", "module-tables-unchanged",
                     "out-of-range->TypeError|ValueError|value",
                     "reused-argument-objects", "results-own-their-state",
                     "result-is-not-an-argument-object", "public-api-present",
-                    "interleaved-calls==sequential"]
+                    "interleaved-calls==sequential", "int-form==float-form"]
 
 
 # ------------------------------------------------------------------ discovery
@@ -847,8 +847,84 @@ class Universe(object):
                      "second_call_raised": repr(ex)})
         self.scribble(target, res, rs, args, inst)
         self.reuse(target, args, inst)
+        self.intform(target, args, inst)
         self.quiesce()
         return rs
+
+    _INTDOC = {}
+
+    @staticmethod
+    def _numeric(sn):
+        """A snapshot with whole numbers read as floats: 0 and 0.0 are the
+        same value."""
+        if isinstance(sn, tuple):
+            if len(sn) == 2 and sn[0] == "int" and type(sn[1]) is int \
+                    and abs(sn[1]) < 2 ** 53:
+                return ("float", float(sn[1]).hex())
+            return tuple(Universe._numeric(x) for x in sn)
+        return sn
+
+    def int_params(self, target):
+        """Names of the parameters whose documented type is 'int, float'."""
+        qual = target[0]
+        if qual not in self._INTDOC:
+            import re
+            f = resolve(target)[0] if target[3] != "__init__" \
+                else resolve(target)[1]
+            doc = inspect.getdoc(f) or ""
+            self._INTDOC[qual] = set(
+                m.group(1) for m in re.finditer(
+                    r":type\s+(\w+):\s*int,\s*float\b", doc))
+        return self._INTDOC[qual]
+
+    def intform(self, target, args, inst):
+        """A parameter documented as 'int, float' takes an int: the call with
+        the whole number n given as an int returns what the call with
+        float(n) returns (judged only where the float call succeeds)."""
+        mon = self.mon
+        qual = target[0]
+        if target[3] == "__init__":
+            return
+        names = self.int_params(target)
+        if not names:
+            return
+        f = getattr(inst, target[3]) if inst is not None \
+            else resolve(target)[0]
+        try:
+            params = [p for p in inspect.signature(f).parameters]
+        except (TypeError, ValueError):
+            return
+        pos = [i for i, a in enumerate(args)
+               if i < len(params) and params[i] in names
+               and type(a) is float and abs(a) < 1e15]
+        if not pos:
+            return
+        a_int = copy.deepcopy(args)
+        a_flt = copy.deepcopy(args)
+        for i in pos:
+            a_int[i] = int(args[i])
+            a_flt[i] = float(int(args[i]))
+        i2 = copy.deepcopy(inst)
+        i3 = copy.deepcopy(inst)
+        mon.evals += 2
+        self.calls += 2
+        try:
+            want = snap(ap(getattr(i2, target[3]) if inst is not None
+                           else f, a_flt))
+        except Exception:
+            return
+        try:
+            got = snap(ap(getattr(i3, target[3]) if inst is not None
+                          else f, a_int))
+        except Exception as ex:
+            got = ("raised", repr(ex))
+        mon.cls("int-for-a-documented-int-or-float", (qual, snap(a_int)))
+        mon.check("int-form==float-form",
+                  self._numeric(got) == self._numeric(want),
+                  lambda: {"target": qual, "int_args": a_int,
+                           "parameters": [params[i] for i in pos],
+                           "with_floats": repr(want)[:300],
+                           "with_ints": repr(got)[:300]})
 
     def scribble(self, target, res, rs, args, inst):
         """Results are values: after the caller has modified the returned
